@@ -85,7 +85,7 @@ def pmodel(lines, nproc=16):
 
 # ------------------------------------------------------------------ S-expression helpers
 
-_TOK_RE = re.compile(r'[+!]?\((?:[^()"]|"(?:[^"\\]|\\.)*")*\)|[^\s()]+')
+_TOK_RE = re.compile(r'[+!]?\((?:[^()"]|"(?:[^"\\]|\\.)*")*\)|"(?:[^"\\]|\\.)*"|[^\s()"]+')
 
 
 def split_toks(s):
@@ -178,7 +178,7 @@ def run_one(cases_json):
 
 # ------------------------------------------------------------------ per-case analysis
 
-def f32_ratio(bits):
+def f32_of_bits(bits):
     import struct
     return Fraction(struct.unpack(">f", struct.pack(">I", bits))[0])
 
@@ -215,34 +215,393 @@ def round_sig6(v):
 
 
 EPS = Fraction(1, 2 ** 23)
+F32_MAX = Fraction(2 ** 128 - 2 ** 104)
+F32_MIN_NORMAL = Fraction(1, 2 ** 126)
+
+PROPS = ["C08", "C09", "C10", "C17", "C18", "C19"]
 
 
-def analyse(c):
-    """-> small dict of verdicts for all six properties (everything else is dropped)."""
+def is_int_spelling(txt):
+    return re.match(r'^[+-]?\d+$', txt) is not None
+
+
+def numeric_toks(toks):
+    return [t for t in toks if tok_kind(t) in ("n", "pc", "dim")]
+
+
+def c10_case(c, agg):
+    """numeric tokens of the implementation output against the exact source values"""
     i, m = c.impl, c.model
-    r = {"cat": c.cat, "panic": False}
-    if len(i) < 7:
-        r["panic"] = True
-        r["impl_raw"] = "\t".join(i)[:300]
-        return r
-    if len(m) < 19:
-        raise Infra("model output malformed: " + "\t".join(m)[:400])
-    r["wf"] = m[M_WF] == "1"
-    r["known"] = [int(x) for x in split_toks(m[M_KNOWN])]
-    r["fuel_ok"] = m[M_FUEL] == "ok"
-    r["text_eq"] = i[1] == m[M_NTEXT] and i[4] == m[M_LTEXT]
-    r["tok_eq"] = i[0] == m[M_NTOK] and i[3] == m[M_LTOK]
-    r["map_eq"] = i[2] == m[M_NMAP] and i[5] == m[M_LMAP]
-    r["warn_eq"] = i[6] == m[M_WARN]
-    r["conf_model"] = m[M_CMN] == "1" and m[M_CML] == "1"
-    r["conf_impl"] = m[M_CIN] == "1" and m[M_CIL] == "1"
-    wk = [w[1:].split(" ", 1)[0] for w in split_toks(i[6])]
-    r["warn_kinds_ok"] = wk == split_toks(m[M_EWARN])
-    return r
+    exp = split_toks(m[M_NUMS])
+    out = numeric_toks(split_toks(i[0])) + numeric_toks(split_toks(i[3]))
+    if len(exp) != len(out) or [tok_kind(t) for t in exp] != [tok_kind(t) for t in out]:
+        agg["c10_unaligned"] += 1
+        return []
+    ratio = f32_of_bits(int(split_toks(c.opts)[3]))
+    bad = []
+    for e, o in zip(exp, out):
+        es, os_ = tok_strings(e), tok_strings(o)
+        src, otxt = es[0], os_[0]
+        k = tok_kind(e)
+        is_rpx = k == "dim" and src.endswith("rpx") and es[1] == "vw"
+        if is_rpx:
+            src = src[:-3]
+        if src == "":
+            continue
+        sv, ov = dec_fraction(src), dec_fraction(otxt)
+        if sv is None:
+            continue
+        agg["c10_tokens"] += 1
+        if k == "dim" and not is_rpx:
+            # unit untouched (case-insensitively: the serializer may re-spell E as e)
+            if es[1].lower() != os_[1].lower():
+                bad.append(("unit changed", src, es[1], otxt + os_[1], False))
+                continue
+        if is_rpx:
+            agg["c10_rpx"] += 1
+            if ratio <= 0:
+                continue
+            want = sv * 100 / ratio
+            tol = 2 * EPS
+            must_int = False
+            if os_[1] != "vw":
+                bad.append(("rpx not converted to vw", src + "rpx", "", otxt + os_[1], False))
+                continue
+        else:
+            want = sv
+            tol = EPS
+            must_int = is_int_spelling(src) and abs(sv) <= 2147483647
+        if abs(want) > F32_MAX or (want != 0 and abs(want) < F32_MIN_NORMAL) or \
+                (is_rpx and abs(sv * 100) > F32_MAX):
+            agg["c10_out_of_f32_range"] += 1
+            continue
+        if ov is None:
+            bad.append(("unparsable output number", src, "", otxt, False))
+            continue
+        if must_int:
+            agg["c10_ints"] += 1
+            ok = ov == want
+        else:
+            ok = abs(ov - want) <= tol * abs(want)
+        # sign: a source token with an explicit '+' keeps it (has_sign)
+        if ok:
+            continue
+        # known class D16: the value cannot be written with 6 significant digits
+        r6 = round_sig6(want)
+        in_known = (r6 != want) if must_int else (abs(r6 - want) > tol * abs(want))
+        bad.append(("integer changed" if must_int else "value off by more than f32 rounding",
+                    src + ("rpx" if is_rpx else ""), str(float(want)), otxt, in_known))
+    return bad
+
+
+_POS_RE = re.compile(r'\((?:i|at|h|idh|s|u|d|n|pc|dim|w|c|col|semi|com|inc|dash|pre|suf|sub|cdo|cdc|bu|bs|cp|cs|cc|F|P|S|C) (\d+) (\d+)[ )]')
+_IMPORT_NEXT_RE = re.compile(r'\(at \d+ \d+ "import"\)(?: \((\w+) (\d+) (\d+))?')
+CLOSER_OF = {"P": "cp", "S": "cs", "C": "cc"}
+
+
+def shape(t):
+    k = tok_kind(t)
+    if k in ("n", "pc"):
+        return k
+    if k == "dim":
+        return "dim " + tok_strings(t)[1].lower()
+    return t
+
+
+def c19_case(c, agg):
+    """direct check of the source-map entries of the implementation; returns (bad, known)"""
+    i = c.impl
+    o = opts_json(c.opts)
+    bad, known = [], []
+    tree_end = split_toks(c.tree)[1:3]
+    import_starts = set()
+    for mm in _IMPORT_NEXT_RE.finditer(c.tree):
+        if mm.group(2) is not None:
+            import_starts.add((int(mm.group(2)), int(mm.group(3))))
+        else:
+            import_starts.add((int(tree_end[0]), int(tree_end[1])))
+    for which, (ms, cs, mt, ts) in enumerate(((i[2], i[7], i[9], i[0]), (i[5], i[8], i[10], i[3]))):
+        if ms.startswith("(BROKEN"):
+            bad.append("source map does not survive its JSON serialisation / lost its source")
+            continue
+        ents = split_toks(ms)
+        flat = split_toks(mt)
+        if len(flat) != 3 * len(ents):
+            raise Infra("map sections misaligned")
+        infos = [flat[3 * k:3 * k + 3] for k in range(len(ents))]
+        cols = set()
+        for x in cs.split(" "):
+            if x:
+                l, cc_ = x.split(":")
+                if l == "0":
+                    cols.add(int(cc_))
+        prev = -1
+        entry_cols = set()
+        for e, inf in zip(ents, infos):
+            f = split_toks(e)
+            dl, dc, sl, sc = int(f[0]), int(f[1]), int(f[2]), int(f[3])
+            name = unq(f[4][1:-1]) if len(f) > 4 else None
+            agg["c19_entries"] += 1
+            entry_cols.add(dc)
+            if dl != 0 or dc < prev:
+                bad.append("entries not in non-decreasing output order at column %d" % dc)
+            prev = dc
+            S, Scss, D = inf
+            if D == "none" or dc not in cols:
+                # a token with empty text (e.g. an empty identifier) has no column of its own
+                bad.append("generated column %d is not the start of an output token" % dc)
+                continue
+            if S == "none":
+                # position at the very end of the input (synthesised by an @import at end of file)
+                if (sl, sc) in import_starts:
+                    continue
+                bad.append("source position %d:%d is not inside the source" % (sl, sc))
+                continue
+            Scss = unq(Scss[1:-1])
+            sk, dk = tok_kind(S), tok_kind(D)
+            ok = False
+            if name is not None:
+                agg["c19_named"] += 1
+                if name != Scss:
+                    ok = False
+                elif sk == "dim" and dk == "dim":
+                    ok = tok_strings(S)[1] == "rpx" and tok_strings(D)[1] == "vw"
+                elif sk == "i" and dk == "i":
+                    ok = o["class_prefix"] is not None and tok_strings(D)[0] == o["class_prefix"] + "--" + tok_strings(S)[0]
+                elif sk == "F" and dk == "at":
+                    ok = tok_strings(S)[0] == tok_strings(D)[0]
+            else:
+                if shape(S) == shape(D):
+                    ok = True
+                elif D in ("cp", "cs", "cc") and (CLOSER_OF.get(S) == D or (sk == "F" and D == "cp")):
+                    ok = True
+                elif dk == "c" and sk == "i" and o["class_prefix_sign"] is not None and tok_strings(D)[0] == o["class_prefix_sign"]:
+                    ok = True   # sign comment points at the class name that triggered it
+                elif S == "C" and o["convert_host"] and (D in ("S", "cs", "com", "(d 61)") or dk in ("i", "s")):
+                    ok = True   # synthesised host selector points at the rule's block
+                elif sk == "F" and tok_strings(S)[0] in ("layer", "supports") and D in ("P", "C"):
+                    ok = True   # wrappers synthesised from an @import condition
+                elif (sl, sc) in import_starts and (D in ("C", "cc") or dk in ("at", "c")):
+                    ok = True   # @media wrapper / placeholder point at the start of the import
+            if ok:
+                continue
+            if sk == "c":
+                known.append("D22")
+                continue
+            bad.append("entry (out col %d -> src %d:%d%s): source token %s does not correspond to output token %s" % (
+                dc, sl, sc, " name=%r" % name if name is not None else "", S, D))
+        if which == 0:
+            # every non-whitespace token of the normal output has an entry
+            tl = split_toks(ts)
+            cl = [x for x in cs.split(" ") if x]
+            if len(tl) == len(cl):
+                for t, x in zip(tl, cl):
+                    if t != "w" and x.startswith("0:") and int(x[2:]) not in entry_cols:
+                        bad.append("output token %s at column %s has no source-map entry" % (t, x))
+                        break
+    return bad, known
+
+
+def ident_seq(toks):
+    return [t for t in toks if tok_kind(t) in ("i", "c")]
+
+
+def analyse_all(cases, stats):
+    import collections
+    agg = collections.Counter()
+    viol = {p: [] for p in PROPS}          # candidate violations (unshrunk), at most 8 each
+    known_hits = {p: collections.Counter() for p in PROPS}
+    samples = []
+    cat_clean = collections.Counter()
+
+    def add_v(pid, what, c, extra=None):
+        agg["viol_" + pid] += 1
+        if len(viol[pid]) < 8:
+            d = {"what": what, "css": unq(c.css[1:-1]), "opts": opts_json(c.opts), "category": c.cat}
+            if extra:
+                d.update(extra)
+            viol[pid].append(d)
+
+    for idx, c in enumerate(cases):
+        i, m = c.impl, c.model
+        agg["cases"] += 1
+        if len(i) < 11:
+            agg["impl_panic"] += 1
+            for pid in ("C08",):
+                add_v(pid, "implementation panicked: " + "\t".join(i)[:200], c)
+            continue
+        if len(m) < 19:
+            raise Infra("model output malformed: " + "\t".join(m)[:400])
+        wf = m[M_WF] == "1"
+        known = [int(x) for x in split_toks(m[M_KNOWN])]
+        kn = [KNOWN_IDS.get(k, "K%d" % k) for k in known]
+        text_eq = i[1] == m[M_NTEXT] and i[4] == m[M_LTEXT]
+        tok_eq = i[0] == m[M_NTOK] and i[3] == m[M_LTOK]
+        map_eq = i[2] == m[M_NMAP] and i[5] == m[M_LMAP]
+        warn_eq = i[6] == m[M_WARN]
+        conf_impl = m[M_CIN] == "1" and m[M_CIL] == "1"
+        conf_model = m[M_CMN] == "1" and m[M_CML] == "1"
+        o = opts_json(c.opts)
+        if m[M_FUEL] != "ok":
+            agg["model_out_of_fuel"] += 1
+        agg["wf" if wf else "not_wf"] += 1
+        if wf and not known:
+            agg["wf_clean"] += 1
+            cat_clean[c.cat] += 1
+        if text_eq and map_eq and warn_eq:
+            agg["model_exact_agree"] += 1
+        if text_eq:
+            agg["model_text_agree"] += 1
+        elif tok_eq:
+            agg["model_token_agree_only"] += 1
+        else:
+            agg["model_disagree"] += 1
+
+        # ---------------- C08
+        if wf:
+            if not conf_impl:
+                if known:
+                    for k in kn:
+                        known_hits["C08"][k] += 1
+                else:
+                    add_v("C08", "re-tokenised output does not conform to the expected token stream "
+                                 "(token merged/split/dropped/reordered, or meaningful whitespace lost/inserted)", c,
+                          {"impl_normal": i[0][:3000], "expected_normal": m[M_EXPN][:3000],
+                           "impl_low": i[3][:1500], "expected_low": m[M_EXPL][:1500]})
+            elif text_eq and not tok_eq and not known:
+                add_v("C08", "the emitted token stream does not survive re-tokenisation", c,
+                      {"impl_normal": i[0][:3000], "model_tokens": m[M_NTOK][:3000]})
+            if not known and conf_impl != conf_model:
+                agg["model_spec_verdict_differs"] += 1
+        if not text_eq and not tok_eq:
+            if wf and not known and conf_impl:
+                agg["harmless_drift"] += 1
+            elif not wf:
+                agg["malformed_disagree"] += 1
+                if len(viol["C08"]) < 8 and agg["malformed_disagree"] <= 3:
+                    viol.setdefault("_malformed", []).append(
+                        {"css": unq(c.css[1:-1]), "opts": o, "impl": i[1][:500], "model": m[M_NTEXT][:500]})
+
+        # ---------------- C09
+        if wf:
+            ei = ident_seq(split_toks(i[0])) + ["|"] + ident_seq(split_toks(i[3]))
+            ee = [t.lstrip("+!") for t in ident_seq([x.lstrip("+!") for x in split_toks(m[M_EXPN])])] + ["|"] + \
+                 [t.lstrip("+!") for t in ident_seq([x.lstrip("+!") for x in split_toks(m[M_EXPL])])]
+            if o["class_prefix"] is not None or o["class_prefix_sign"] is not None:
+                agg["c09_cases_with_prefix_or_sign"] += 1
+            if o["class_prefix"] is not None:
+                pre = o["class_prefix"] + "--"
+                agg["c09_prefixed_idents"] += sum(1 for t in ee if tok_kind(t) == "i" and tok_strings(t)[0].startswith(pre))
+            if ei != ee:
+                if known:
+                    for k in kn:
+                        known_hits["C09"][k] += 1
+                else:
+                    j = 0
+                    while j < min(len(ei), len(ee)) and ei[j] == ee[j]:
+                        j += 1
+                    add_v("C09", "identifier / sign-comment sequence differs from the expected one at #%d: got %s, expected %s" % (
+                        j, ei[j] if j < len(ei) else "<end>", ee[j] if j < len(ee) else "<end>"), c)
+
+        # ---------------- C10
+        for b in c10_case(c, agg):
+            what, src, want, got, in_known = b
+            if in_known:
+                known_hits["C10"]["D16"] += 1
+            elif wf and any(k in known for k in (15, 24)):
+                known_hits["C10"]["D15/D24 (token re-lexed)"] += 1
+            else:
+                add_v("C10", "%s: source %s expected %s printed %s" % (what, src, want, got), c)
+
+        # ---------------- C17
+        if wf and o["convert_host"]:
+            agg["c17_cases"] += 1
+            tl = split_toks(i[3])
+            tn = split_toks(i[0])
+            agg["c17_host_rules_moved"] += sum(1 for t in tl if t == '(i "wx-host")')
+            prob = None
+            if not (m[M_CIL] == "1" and m[M_CIN] == "1"):
+                prob = "outputs do not conform to the expected partition"
+            elif tl.count("C") != tl.count("cc") or tn.count("C") != tn.count("cc"):
+                prob = "unbalanced braces in an output"
+            elif [w[1:].split(" ", 1)[0] for w in split_toks(i[6])] != split_toks(m[M_EWARN]):
+                prob = "warnings differ from the expected ones: got %s expected %s" % (i[6], m[M_EWARN])
+            if prob:
+                if known:
+                    for k in kn:
+                        known_hits["C17"][k] += 1
+                else:
+                    add_v("C17", prob, c, {"impl_normal": i[0][:2000], "impl_low": i[3][:2000],
+                                           "expected_normal": m[M_EXPN][:2000], "expected_low": m[M_EXPL][:2000]})
+        elif wf and not o["convert_host"]:
+            if i[3] != "()" or "65539" in i[6]:
+                add_v("C17", "host conversion is off but the low-priority output / host warnings are not empty", c)
+
+        # ---------------- C18
+        if wf and o["import_sign"] is not None:
+            sign = o["import_sign"] + " "
+            got_paths = []
+            alpha_ok = True
+            for t in split_toks(i[0]):
+                if tok_kind(t) == "c":
+                    body = tok_strings(t)[0]
+                    if body.startswith(sign):
+                        enc_ = body[len(sign):]
+                        if re.match(r'^[A-Za-z0-9\-_.~%]*$', enc_) is None:
+                            alpha_ok = False
+                        try:
+                            from urllib.parse import unquote_to_bytes
+                            got_paths.append(unquote_to_bytes(enc_).decode("utf8"))
+                        except Exception:
+                            got_paths.append(None)
+            want_paths = [unq(x[1:-1]) for x in split_toks(m[M_PATHS])]
+            agg["c18_imports"] += len(want_paths)
+            tn = split_toks(i[0])
+            prob = None
+            if not alpha_ok:
+                prob = "placeholder contains a character outside [A-Za-z0-9-_.~%]"
+            elif got_paths != want_paths:
+                prob = "paths recovered from the placeholders %r differ from the imported paths %r" % (got_paths, want_paths)
+            elif tn.count("C") != tn.count("cc"):
+                prob = "unbalanced braces around a placeholder"
+            elif m[M_CIN] != "1":
+                prob = "normal output does not conform to the expected stream"
+            elif [w[1:].split(" ", 1)[0] for w in split_toks(i[6])] != split_toks(m[M_EWARN]):
+                prob = "warnings differ from the expected ones: got %s expected %s" % (i[6], m[M_EWARN])
+            if prob:
+                if known:
+                    for k in kn:
+                        known_hits["C18"][k] += 1
+                else:
+                    add_v("C18", prob, c, {"impl_normal": i[0][:2000], "expected_normal": m[M_EXPN][:2000]})
+
+        # ---------------- C19
+        if not map_eq and text_eq:
+            agg["c19_model_map_disagree"] += 1
+        bad19, known19 = c19_case(c, agg)
+        for k in known19:
+            known_hits["C19"][k] += 1
+        if bad19:
+            if not wf:
+                agg["c19_bad_on_malformed"] += 1
+            elif any(k in known for k in (15, 24)) or 'Ident("")' in "":
+                known_hits["C19"]["D15/D24 (token re-lexed)"] += 1
+            else:
+                add_v("C19", bad19[0], c, {"all": bad19[:5]})
+        if not map_eq and not bad19 and wf and text_eq:
+            add_v("C19", "source map differs from the model although the text agrees", c,
+                  {"impl_map": i[2][:1500], "model_map": m[M_NMAP][:1500]})
+
+        if idx % max(1, len(cases) // 6) == 0 and len(samples) < 6:
+            samples.append({"css": unq(c.css[1:-1])[:400], "opts": o, "normal": unq(i[1][1:-1])[:400],
+                            "low": unq(i[4][1:-1])[:200], "warnings": i[6], "wf": wf, "known_classes": kn})
+
+    return {"agg": dict(agg), "viol": viol, "known_hits": {p: dict(v) for p, v in known_hits.items()},
+            "samples": samples, "stats": stats, "clean_by_category": dict(cat_clean)}
 
 
 def load_run(res):
-    """returns (cases summaries list, stats dict, timing dict). Uses the cache when valid."""
+    """one harness + model run for all six properties (cached by content hash)."""
     tier, seed = res.tier, res.seed
     harness_build(False)
     modelrun_build()
@@ -259,27 +618,30 @@ def load_run(res):
             except Exception:
                 pass
         t0 = time.time()
-        p = harness_run(["css", tier, seed], timeout=3000)
-        t1 = time.time()
-        stats = {}
-        cases = []
-        for line in p.stdout.decode("utf8").split("\n"):
-            if not line:
-                continue
-            if line.startswith("#stats\t"):
-                stats = json.loads(line[7:])
-                continue
-            cases.append(parse_line(line))
-        del p
-        models = pmodel([model_cmd(c) for c in cases])
-        t2 = time.time()
-        for c, m in zip(cases, models):
-            c.model = m.split("\t")
-        del models
-        d = full_analysis(cases, stats)
-        d["timing"] = {"harness_s": round(t1 - t0, 1), "model_s": round(t2 - t1, 1), "analysis_s": round(time.time() - t2, 1)}
+        d = None
+        nchunks = 10 if tier == "thorough" else 1
+        import collections
+        for ch in range(nchunks):
+            p = harness_run(["css", tier, seed, ch, nchunks], timeout=3000)
+            stats = {}
+            cases = []
+            for line in p.stdout.decode("utf8").split("\n"):
+                if not line:
+                    continue
+                if line.startswith("#stats\t"):
+                    stats = json.loads(line[7:])
+                    continue
+                cases.append(parse_line(line))
+            del p
+            models = pmodel([model_cmd(c) for c in cases])
+            for c, m in zip(cases, models):
+                c.model = m.split("\t")
+            del models
+            dd = analyse_all(cases, stats)
+            del cases
+            d = dd if d is None else merge_runs(d, dd)
+        d["timing"] = {"total_s": round(time.time() - t0, 1)}
         d["key"] = key
-        # drop stale runs of the same tier/seed
         for f in os.listdir(RUNS):
             if f.startswith("%s_%s_" % (tier, seed)) and f != os.path.basename(path):
                 try:
@@ -292,7 +654,23 @@ def load_run(res):
         return d
 
 
-def full_analysis(cases, stats):
-    """Everything the six property modules need, in one pass; failing cases keep their inputs."""
-    from props import cssanalysis
-    return cssanalysis.analyse_all(cases, stats)
+def _merge_counts(a, b):
+    for k, v in b.items():
+        if isinstance(v, dict):
+            a[k] = _merge_counts(a.get(k, {}), v)
+        elif isinstance(v, (int, float)):
+            a[k] = a.get(k, 0) + v
+        else:
+            a.setdefault(k, v)
+    return a
+
+
+def merge_runs(a, b):
+    a["agg"] = _merge_counts(a["agg"], b["agg"])
+    for p in b["viol"]:
+        a["viol"].setdefault(p, [])
+        a["viol"][p] = (a["viol"][p] + b["viol"][p])[:8]
+    a["known_hits"] = _merge_counts(a["known_hits"], b["known_hits"])
+    a["stats"] = _merge_counts(a["stats"], b["stats"])
+    a["clean_by_category"] = _merge_counts(a["clean_by_category"], b["clean_by_category"])
+    return a
